@@ -95,7 +95,7 @@ PROPS["C05"] = dict(
 LEVEL_TEXT["C05"] = "Explicit-state model checking of the real BitFieldVec<W> against Vec<W> for every word type and a boundary set of widths (all widths for u8/u16 in thorough): every history up to the depth bound is executed on the implementation and all observations are compared in every reached state."
 TECHNIQUE["C05"] = "explicit-state BFS over operation histories executed on the real object per (word type, bit width), observational equivalence with a reference model in every state"
 
-RS_RULE = "case = (structure stack with parameters, shaped bit vector, tail state); vectors: every length 0..=L x {zeros, ones, alternating, single one / single zero at first/mid/last}, concatenations of <= K segments (kind in zeros/ones/alternating/one-every-7/64/65/512, length in word/block/sub-block boundaries +-1), gap families at the U16/U32 span switch (0xFFFF, 0x10000, 0x10001), sparse vectors of 32768/65536 +- delta bits with <= 3 ones (Select9 span classes, word count mod 4), dense prefixes followed by a very sparse tail (inventory entries with 16/32/64-bit subinventories not starting at 0), their inverses and mirror images, uniformly sparse vectors (one every 2049/4096/8191/70000 bits, 40-300 ones: 32-bit spans, spilling subinventories) with and without a dense block in the middle, vectors with ones at floor(i*g)+offset for average gaps g at the span-class boundaries of Select9 (7.5, 7.75, 8, 63.5, 63.75, 64, 127.5, 127.75, 128, 255.5, 255.75, 256) and of the adaptive selectors (15.5, 16, 16.5, 2047, 2048) with three offsets and inverses, inventory-quantum multiples with ragged tails; tail states fresh / popped / truncated (resize down from +70 ones) / two spare zero words / produced by the whole-vector writers (complement then par_flip; fill, flip and sets); a case is non-trivial when the vector has at least one one and one zero"
+RS_RULE = "case = (structure stack with parameters, shaped bit vector, tail state); vectors: every length 0..=L x {zeros, ones, alternating, single one / single zero at first/mid/last}, concatenations of <= K segments (kind in zeros/ones/alternating/one-every-7/64/65/512, length in word/block/sub-block boundaries +-1), gap families at the U16/U32 span switch (0xFFFF, 0x10000, 0x10001), sparse vectors of 32768/65536 +- delta bits with <= 3 ones (Select9 span classes, word count mod 4), dense prefixes followed by a very sparse tail (inventory entries with 16/32/64-bit subinventories not starting at 0), their inverses and mirror images, uniformly sparse vectors (one every 2049/4096/8191/70000 bits, 40-300 ones: 32-bit spans, spilling subinventories) with and without a dense block in the middle, vectors with ones at floor(i*g)+offset for average gaps g at the span-class boundaries of Select9 (7.5, 7.75, 8, 63.5, 63.75, 64, 127.5, 127.75, 128, 255.5, 255.75, 256) and of the adaptive selectors (15.5, 16, 16.5, 2047, 2048) with three offsets and inverses, inventory-quantum multiples with ragged tails; tail states fresh / popped / truncated (resize down from +70 ones) / two spare zero words / produced by the whole-vector writers (complement then par_flip; fill, flip and sets); for the rank structures alone also two garbage words after a clean last word (Rank9 documents that the content of an extra word is irrelevant; the selection structures scan the whole backing slice by design, which puts such storage outside C02); a case is non-trivial when the vector has at least one one and one zero"
 PROPS["C01"] = dict(
     level="exploration",
     engine="E1",
@@ -263,7 +263,7 @@ TECHNIQUE["C13"] = "controlled-scheduler stateless exploration of real threads (
 PROPS["C11"] = dict(
     level="exploration",
     engine="E1",
-    parts=[dict(bin="e1_space", timeout_s={"quick": 900, "thorough": 7200})],
+    parts=[dict(bin="e1_space", timeout_s={"quick": 900, "thorough": 7200}, alloc_failure="violation")],
     rule="rank/select: EVERY len in 0..=L and every power of two +-1 up to 2^26 x densities {ones, zeros, one per 512, alternating}; bit vectors and bit-field vectors built or grown only: every len 0..=300 x 9 widths x {new, new_unaligned, push, resize} and collect / extend from iterators with exact, too-large and unknown size hints (filter, take_while, flat_map, chain); Elias-Fano (plain build): ALL (n,u) with n in 0..=64, u in 0..=U plus the split probes n 2^k +-1 and 2^63, MAX; both Elias-Fano builders at n in {1000, 7000, 100000} (thorough to 700000) x u = n 2^k y for k <= 40 and 8 values of y in [1,2); functions/filters: arithmetic num_vertices x num_shards of every ShardEdge for EVERY n <= N then a 1% geometric grid to 10^12 with the largest admissible shard floor(1.01 n / shards), real builds of functions and filters at regime boundaries for 4 value widths, and real builds of functions of EVERY value width (1..=BITS of usize, u16, u8; 7 widths of u32, 6 of u64) on bit-field and boxed backends at 1000 and 100 000 keys; non-trivial = non-empty structure",
     alphabet="additive constants fixed in DESIGN.md section 5 (C11): rank structures and Select9 + 1024 bits; Elias-Fano + 1152 bits; functions 2 segments per shard (MWHC: 3 x 128 cells per shard) + 8 cells; 1.135 applies to the default sharded logic from 100000 keys",
     bound={"quick": "L=5000, U=600, N=60000", "thorough": "L=200000, U=4096, N=4 10^6"},
